@@ -375,6 +375,8 @@ def oracle_c01(sim, case):
                 if disabled:
                     cause = ("the producing worker's pool is listed but its scope is disabled by pool_scope although the "
                              "run decision for the producer was shared with that worker")
+                    sharing = scope_group(sim, start).split(":")[0]
+                    cause += f" [{start['params'].get('nets_spawner')} consumer sharing run decisions per {sharing}]"
                 elif not producers_listed:
                     cause = "produced in this run by a worker whose pool is not listed"
                 else:
